@@ -94,7 +94,7 @@ let c02 h zh tys vals =
   let sval = String.map (fun c -> if c = ' ' then '_' else c) (string_of_val v) in
   Printf.sprintf "ser=%s blen=%s dser=%s droot=%s dval=%s spec_ser=%s spec_blen=%s spec_dser=%s spec_droot=%s spec_dval=%s"
     ser blen dser droot dval (hb sbytes) (hn (n_of_int (List.length sbytes))) (hb sbytes)
-    (hb (spec_htr h t v)) sval
+    (match n with OK n -> hb (root_of h n) | _ -> "ERR") sval
 
 (* ---- C03 ---- *)
 let c03 zh tys data =
@@ -282,7 +282,15 @@ let dispatch set_cfg cur_h cur_zh (op : string) (args : string list) : string =
   | "c13r", [kind; t; data; got] -> set_cfg "sha"; c13_read kind !cur_zh t data got
   | "c13w", [kind; t; v; budget] -> set_cfg "sha"; c13_write kind !cur_zh t v budget
   | "c20", [t; data] -> set_cfg "sha"; c20 !cur_zh t data
-  | "hist", [cfg; t; v; route; ops] -> set_cfg cfg; Hist.run_hist !cur_h !cur_zh t v route ops
+  | "hist", [cfg; t; v; route; ops] ->
+    (* cfg "sha!" / "alt!": identity-level history, no comparison with the plain-value machine
+       (used for types with List/Vector[bool], whose spec root differs: known finding D3) *)
+    let n = String.length cfg in
+    let ns = n > 0 && cfg.[n-1] = '!' in
+    let cfg' = if ns then String.sub cfg 0 (n-1) else cfg in
+    set_cfg cfg'; Hist.no_spec := ns;
+    let r = Hist.run_hist !cur_h !cur_zh t v route ops in
+    Hist.no_spec := false; r
   | "c12", [cfg; t; v; gs; ope] -> set_cfg cfg; Hist.c12 !cur_h !cur_zh t v gs ope
   | "c11", [tree; op; g; expand; vtree] -> set_cfg "sha"; Hist.c11 !cur_h !cur_zh tree op g expand vtree
   | ("umt" | "umj" | "uut" | "uuj" | "u256ut" | "u256uj" | "hexm" | "hexu"), _ -> c19 op args
